@@ -271,6 +271,9 @@ func (fs faultsim) runFaulted(c *Case, dir string, target int, plan *sim.FaultPl
 		e.CheckFile("failed commit (" + disk.Fired + ")")
 		// re-attribute accounting problems found right after the failure
 		for _, v := range e.Viol {
+			if v.Prop == c.Prop {
+				continue // the check that asked for this run owns these (e.g. C07's accounting after a failed commit)
+			}
 			if v.Prop == "C07" || v.Prop == "C12" || v.Prop == "C02" || v.Prop == "C04" {
 				v.Msg = v.Prop + "/" + v.Class + ": " + v.Msg
 				v.Prop, v.Class = "C08", "state-after-failed-commit"
@@ -294,6 +297,9 @@ func (fs faultsim) runFaulted(c *Case, dir string, target int, plan *sim.FaultPl
 			e.CheckFile("final reopen")
 			if disk.Fired != "" {
 				for _, v := range e.Viol[n:] {
+					if v.Prop == c.Prop {
+						continue
+					}
 					v.Msg = v.Prop + "/" + v.Class + ": " + v.Msg
 					v.Prop, v.Class = "C08", "state-after-reopen"
 				}
